@@ -12,6 +12,7 @@ package main
 // Anything else (loop-carried accumulators, appends, break, returning the key) is order-sensitive.
 
 import (
+	"go/token"
 	"fmt"
 	"go/constant"
 	"go/types"
@@ -431,6 +432,36 @@ func injectiveKey(p *Prog, l *mapLoop, key, val ssa.Value) (bool, string) {
 						}
 					}
 				}
+			}
+		}
+	}
+	// "<const>" + rangeKey (+ "<const>"): string concatenation with constants is injective in the key
+	{
+		var parts []ssa.Value
+		var walk func(v ssa.Value)
+		walk = func(v ssa.Value) {
+			if bo, ok := v.(*ssa.BinOp); ok && bo.Op == token.ADD {
+				walk(bo.X)
+				walk(bo.Y)
+				return
+			}
+			parts = append(parts, v)
+		}
+		walk(key)
+		if len(parts) > 1 {
+			nKey, ok := 0, true
+			for _, pv := range parts {
+				if l.key != nil && pv == l.key {
+					nKey++
+					continue
+				}
+				if c, isC := pv.(*ssa.Const); isC && c.Value != nil && c.Value.Kind() == constant.String {
+					continue
+				}
+				ok = false
+			}
+			if ok && nKey == 1 {
+				return true, "constant text around the range key, injective"
 			}
 		}
 	}
